@@ -305,6 +305,102 @@ def _new_shape_oracle(rng, n):
     return dict(hist), failures
 
 
+# ------------------------------------------------------------------ Literal types with degenerate members
+LITERAL_CLASSES = ("literal-without-default", "literal-single-choice")
+
+
+def _gen_literal_shape(rng):
+    """an (ir, opts, tags, name) point with one option whose type is a Literal of strings with a degenerate member (the
+    empty string, a blank string, a repeated member, a single member, double quote marks inside, text that reads as a
+    number / keyword constant, inner blanks or commas), mostly with an explicit default that is one of the members, next to
+    0..2 options of the proved shape (scalar type, clean help, type-consistent default)"""
+    from collections import OrderedDict
+    import gen_ir
+    import gen_text as G
+    items = []
+    used = set()
+    for _ in range(rng.choice([0, 0, 1, 2])):
+        n = G.ident(rng)
+        while n in used:
+            n = G.ident(rng)
+        used.add(n)
+        typ = rng.choice(["int", "str", "float", "Optional[int]", "Optional[str]"])
+        v = {"int": rng.choice([5, 1, -3, 100]), "float": rng.choice([0.5, 2.5, -1.25]),
+             "str": rng.choice(["mnist", "adam", "relu", "x"])}[typ.replace("Optional[", "").rstrip("]")]
+        items.append((n, {"doc": G.clean_prose(rng), "typ": typ, "default": v}))
+    name = G.ident(rng)
+    while name in used:
+        name = G.ident(rng)
+    members, kind = G.degenerate_literal_members(rng)
+    p = {"doc": G.clean_prose(rng), "typ": G.literal_typ(members)}
+    k = rng.random()
+    if k < 0.45:
+        p["default"] = rng.choice(members)
+        dk = "member"
+    elif k < 0.80:
+        # the degenerate member itself when there is one
+        odd = [m for m in members if m not in G.LITERAL_PLAIN] or members
+        p["default"] = rng.choice(odd)
+        dk = "odd-member"
+    else:
+        dk = "absent"
+    items.insert(rng.randint(0, len(items)), (name, p))
+    ir = {"name": None, "type": "static", "doc": G.clean_prose(rng, max_words=6), "params": OrderedDict(items), "returns": None}
+    opts = {"emit_default_doc": rng.random() < 0.4, "word_wrap": rng.random() < 0.5, "wrap_description": False}
+    return ir, opts, ["literal:" + kind, "default:" + dk], name
+
+
+def _literal_entry_described(ir, out, name):
+    """the two recorded Literal classes stand for what they describe only: the Literal option comes back with the same help
+    text, with '' as its default when it had none (literal-without-default) and with the type `str` when it has a single
+    member (literal-single-choice) - every member of a Literal of two or more choices must come back, in order"""
+    import ast
+    if out is None or name not in (out.get("params") or {}):
+        return False
+    exp = dict(ir["params"][name])
+    try:
+        sl = ast.parse(exp["typ"], mode="eval").body.slice
+        n_members = len(sl.elts) if isinstance(sl, ast.Tuple) else 1
+    except Exception:  # noqa
+        return False
+    if n_members == 1:
+        exp["typ"] = "str"
+    if "default" not in exp:
+        exp["default"] = ""
+    what = []
+    fam_parseast._cmp_param(exp, out["params"][name], what, name)
+    return not what
+
+
+def _literal_shape_oracle(rng, n):
+    """stratum: the shapes of _gen_literal_shape through the real round trip, classified by the refined classifier; a
+    failure in one of the two Literal classes must be the difference that class describes for the Literal option"""
+    import collections
+    F = fam_parseast
+    pts = [_gen_literal_shape(rng) for _ in range(n)]
+    infos = _refined([(ir, o) for ir, o, _, _ in pts])
+    hist, failures = collections.Counter(), []
+    n_eval = 0
+    for (ir, o, tags, name), info in zip(pts, infos):
+        cls = info[0]
+        if cls == "out-of-domain":
+            hist["literal-shapes:out-of-domain"] += 1
+            continue
+        case = {"kind": "argparse", "ir": ir, "opts": o}
+        ok, what, out = F.round_trip("argparse", ir, o)
+        n_eval += 1
+        if cls == "unmodelled":
+            continue
+        if not ok:
+            cls, note = _classify_failure(case, out, info)
+            if cls in LITERAL_CLASSES and not _literal_entry_described(ir, out, name):
+                cls, note = None, " [not what the recorded class %s describes for option %s]" % (cls, name)
+            failures.append({"case": case, "what": what + note, "class": cls})
+        hist["literal-shapes:%s:%s:%s" % (tags[0], "holds" if ok else "fails", cls or "in-guard")] += 1
+    hist["literal-shapes:points"] = n_eval
+    return dict(hist), failures
+
+
 def _reclassify(failures):
     """failures of the other streams that finding_class_C04 does not name: ask the refined classifier"""
     idx = [k for k, f in enumerate(failures) if f.get("class") is None and isinstance(f.get("case"), dict)
@@ -348,6 +444,13 @@ def oracle(rng, tier):
     res["rule"] += (" | stratum of the shape a proof found inside the first classifier's no-finding region (a description / a help "
                     "text that starts and ends with the same quote mark), classified by finding_class_C04_r; a new class stands "
                     "only for the difference it describes")
+    hist, failures = _literal_shape_oracle(rng, 400 if tier == "quick" else 4000)
+    res["histogram"].update(hist)
+    res["failures"] += failures
+    res["evaluations"] += hist.get("literal-shapes:points", 0)
+    res["rule"] += (" | stratum of Literal options with a degenerate member (empty / blank string, repeated member, single member, "
+                    "double quote marks, number- or keyword-like text, inner blanks or commas), default a member or absent; the "
+                    "classes literal-without-default / literal-single-choice stand only for the difference they describe")
     return res
 
 
